@@ -196,7 +196,9 @@ func tuples(n, maxLen int, withEmpty bool) [][]int {
 func timeGrid(r *core.Run) {
 	nz := time.Date(2021, 6, 1, 12, 0, 0, 5, time.FixedZone("", 3600))
 	for _, scheme := range []signature.SigningScheme{signature.SigningSchemeX509, signature.SigningSchemeX509SigningAuthority, "", "notary.x509.other", "NOTARY.X509.SIGNINGAUTHORITY"} {
-		for _, t := range []time.Time{{}, nz, time.Unix(0, 0).UTC()} {
+		for _, t := range []time.Time{{}, nz, time.Unix(0, 0).UTC(), time.Unix(0, 0), time.Unix(0, 999999999), time.Unix(1, 0), time.Unix(-1, 0),
+			time.Date(1970, 1, 1, 1, 0, 0, 0, time.FixedZone("", 3600)), time.Time{}.Add(1), time.Date(1, 1, 1, 0, 0, 0, 0, time.FixedZone("", -3600)),
+			time.Date(1, 1, 1, 1, 0, 0, 0, time.FixedZone("", 3600)), time.Date(9999, 12, 31, 23, 59, 59, 0, time.UTC), time.Unix(1<<40, 0)} {
 			r.Eval(1)
 			si := &signature.SignerInfo{SignedAttributes: signature.SignedAttributes{SigningScheme: scheme, SigningTime: t}}
 			got, err := si.AuthenticSigningTime()
